@@ -36,6 +36,7 @@ RULE += (' Also: opaque results.')
 RULE += (' Also: call objects created first and started later (a scheduling point between creation and start).')
 RULE += (' Also: cache_discard operations in the quiescent epilogue.')
 RULE += (' Also: calls spelled with a keyword (f(2) and f(2, tag=1) are different keys); functions failing with a BaseException that is no Exception.')
+RULE += (' Also: argument patterns with equal hashes (negative integers) are different keys; a call that started after the last clear and finished is stored.')
 ASSUMPTIONS = ["cache contents during concurrency are not pinned, only constrained existentially at quiescence",
                "the OrderedDict LRU model is the one cross-validated against functools.lru_cache by C10"]
 EXHAUSTIVE_SUBSPACES = 'every scenario counted in scenarios_explored_exhaustively had ALL its interleavings executed'
@@ -110,7 +111,9 @@ def execute(case, choose, cancel_at=None):
         """How the logical key is spelled as a call: positionally - or, for odd keys in the keyword form, as the
         positional argument of its even neighbour plus one keyword (``f(2)`` and ``f(2, tag=1)`` are different calls)."""
         if kwform and isinstance(key, int):
-            return ((key - key % 2,), {"tag": 1} if key % 2 else {})
+            # (the positional argument is NEGATIVE: hash(-1) == hash(-2), so the calls for keys 1 and 3 - f(-1, tag=1) and
+            # f(-2, tag=1) - are unequal argument patterns with equal hashes)
+            return ((-(key // 2) - 1,), {"tag": 1} if key % 2 else {})
         return ((key,), {})
 
     def call_of(key):
@@ -121,8 +124,13 @@ def execute(case, choose, cancel_at=None):
         args, kw = pattern(key)
         return cached.cache_discard(*args, **kw)
 
+    clock = itertools.count(1)
+    finished = []  # (key, logical time its run started, logical time it finished successfully)
+    marks = {"clear": 0, "discard": {}}
+
     async def wrapped(key, tag=0):
-        key = key + tag if kwform and isinstance(key, int) else key
+        key = (-key - 1) * 2 + tag if kwform and isinstance(key, int) else key
+        t_start = next(clock)
         state["runs"] += 1
         rid = state["runs"]
         state["inv_since_clear"] += 1
@@ -139,6 +147,7 @@ def execute(case, choose, cancel_at=None):
         value = mkval(key, rid)
         produced[rid] = (key, "ok")
         success.setdefault(key, []).append(value)
+        finished.append((key, t_start, next(clock)))
         return value
 
     if case["maxsize"] is None:
@@ -172,11 +181,13 @@ def execute(case, choose, cancel_at=None):
                 if sum(state["active"].values()):
                     state["clears_in_flight"] += 1
                 cached.cache_clear()
+                marks["clear"] = next(clock)
                 state["inv_since_clear"] = 0
                 state["started_since_clear"] = 0
                 state["shrink_ok"] = True
             else:
                 discard(op[1])
+                marks["discard"][op[1]] = next(clock)
                 state["shrink_ok"] = True
 
     def monitor(driver, task):
@@ -231,6 +242,17 @@ def execute(case, choose, cancel_at=None):
     if not driver.deadlock:
         fail.clear()
         q = cached.cache_info()
+        # a run that STARTED after the last cache_clear() and finished successfully after the last discard of its key has
+        # nothing to do with either: its result is stored (unless the bound evicted it) - whatever older calls were
+        # still suspended at the time
+        due = {key for key, t0, t1 in finished if t0 > marks["clear"] and t1 > marks["discard"].get(key, 0)}
+        need = len(due) if case["maxsize"] is None else min(len(due), case["maxsize"])
+        # (in a BOUNDED cache an eviction followed by a discard of the evicting key may empty it again: there the rule is
+        # applied to histories without discards only)
+        if q.currsize < need and (case["maxsize"] is None or not marks["discard"]):
+            viols.append(("lru_cache/finished-call-after-the-clear-not-stored",
+                          f"at quiescence currsize={q.currsize}, but {sorted(due, key=str)} were computed by runs that started "
+                          f"after the last clear and finished after the last discard of their key (maxsize={case['maxsize']})"))
         observed = []
 
         async def epilogue():
